@@ -16,6 +16,7 @@ import (
 	"fmt"
 	"os"
 	"path/filepath"
+	"regexp"
 	"runtime"
 	"runtime/debug"
 	"strings"
@@ -357,7 +358,126 @@ func opGlob(c Case, r Result) {
 	r["lists"] = outs
 }
 
+// conc: goroutines compile sources and run compiled programs (shared and private) at the same
+// time; every call must return what it returns when executed alone (C19).  Built with -race the
+// detector's reports go to stderr and set the exit status.
+func opConc(c Case, r Result) {
+	var sources, texts []string
+	for _, s := range c["sources_hex"].([]any) {
+		b, _ := hex.DecodeString(s.(string))
+		sources = append(sources, string(b))
+	}
+	for _, t := range c["texts_hex"].([]any) {
+		b, _ := hex.DecodeString(t.(string))
+		texts = append(texts, string(b))
+	}
+	n := num(c, "goroutines", 8)
+	iters := num(c, "iters", 20)
+	type exp struct {
+		bc      string
+		matches []string
+		prog    *bytecode.Bytecode
+	}
+	expected := make([]exp, len(sources))
+	canon := func(bc *bytecode.Bytecode) string { return canonIds(bcSexp(bc)) }
+	for i, src := range sources {
+		a, err := ast.ParseReader(strings.NewReader(src))
+		if err != nil {
+			expected[i] = exp{bc: "ERR:" + errClass(err)}
+			continue
+		}
+		bc, gerr := bytecode.GenerateBytecode(a)
+		if gerr != nil {
+			expected[i] = exp{bc: "ERR:" + errClass(gerr)}
+			continue
+		}
+		e := exp{bc: canon(bc), prog: bc}
+		for _, t := range texts {
+			e.matches = append(e.matches, matchesSexp(engine.Run(bc, t)))
+		}
+		expected[i] = e
+	}
+	var mu sync.Mutex
+	mismatches := []string{}
+	calls := 0
+	var wg sync.WaitGroup
+	for g := 0; g < n; g++ {
+		wg.Add(1)
+		go func(g int) {
+			defer wg.Done()
+			defer func() {
+				if p := recover(); p != nil {
+					mu.Lock()
+					mismatches = append(mismatches, fmt.Sprintf("panic in goroutine %d: %v", g, p))
+					mu.Unlock()
+				}
+			}()
+			for it := 0; it < iters; it++ {
+				i := (g + it) % len(sources)
+				// compile concurrently
+				var got string
+				var prog *bytecode.Bytecode
+				a, err := ast.ParseReader(strings.NewReader(sources[i]))
+				if err != nil {
+					got = "ERR:" + errClass(err)
+				} else {
+					bc, gerr := bytecode.GenerateBytecode(a)
+					if gerr != nil {
+						got = "ERR:" + errClass(gerr)
+					} else {
+						got = canon(bc)
+						prog = bc
+					}
+				}
+				local := []string{}
+				if got != expected[i].bc {
+					local = append(local, fmt.Sprintf("compile of source %d differs: %s vs %s", i, got, expected[i].bc))
+				}
+				// run the shared program and the private one concurrently
+				j := (g*7 + it) % len(sources)
+				if expected[j].prog != nil {
+					for k, t := range texts {
+						if m := matchesSexp(engine.Run(expected[j].prog, t)); m != expected[j].matches[k] {
+							local = append(local, fmt.Sprintf("run of shared program %d on text %d differs", j, k))
+						}
+					}
+				}
+				if prog != nil && got == expected[i].bc {
+					for k, t := range texts {
+						if m := matchesSexp(engine.Run(prog, t)); m != expected[i].matches[k] {
+							local = append(local, fmt.Sprintf("run of private program %d on text %d differs", i, k))
+						}
+					}
+				}
+				mu.Lock()
+				calls += 2 + 2*len(texts)
+				if len(mismatches) < 20 {
+					mismatches = append(mismatches, local...)
+				}
+				mu.Unlock()
+			}
+		}(g)
+	}
+	wg.Wait()
+	r["calls"] = calls
+	r["mismatches"] = mismatches
+}
+
+var loopIdRe = regexp.MustCompile(`\((start|stop)loop L(-?\d+)`)
+
+func canonIds(bc string) string {
+	ids := map[string]int{}
+	return loopIdRe.ReplaceAllStringFunc(bc, func(m string) string {
+		sub := loopIdRe.FindStringSubmatch(m)
+		if _, ok := ids[sub[2]]; !ok {
+			ids[sub[2]] = len(ids)
+		}
+		return fmt.Sprintf("(%sloop L%d", sub[1], ids[sub[2]])
+	})
+}
+
 var ops = map[string]func(Case, Result){
+	"conc":    opConc,
 	"glob":    opGlob,
 	"reader":  opReader,
 	"runboth": opRunBoth,
